@@ -155,6 +155,8 @@ class Sim:
         self.proto = None
         self.mark = 0
         self._keep = []
+        self.transport_cls = MemTransport
+        self.client_tail = b""       # bytes the peer sends in the same segment as its 101 response
 
     # ---- loop plumbing -------------------------------------------------------------
     def __enter__(self):
@@ -306,7 +308,7 @@ class Sim:
         class Conn(BaseConnector):
             async def _create_connection(self, req, traces, timeout):
                 proto = self._factory()
-                tr = MemTransport(loop)
+                tr = sim.transport_cls(loop)
                 tr.proto = proto
                 proto.connection_made(tr)
                 sim.tr, sim.proto = tr, proto
@@ -338,7 +340,7 @@ class Sim:
         accept = base64.b64encode(hashlib.sha1(key + WS_KEY).digest())
         self.proto.data_received(
             b"HTTP/1.1 101 Switching Protocols\r\nUpgrade: websocket\r\nConnection: upgrade\r\n"
-            b"Sec-WebSocket-Accept: " + accept + b"\r\n\r\n")
+            b"Sec-WebSocket-Accept: " + accept + b"\r\n\r\n" + self.client_tail)
         self.settle()
         if not t.done() or t.exception():
             raise RuntimeError(f"client handshake failed: {t}")
@@ -562,3 +564,166 @@ def run_fragment_wedge(cfg, size, seg):
         return {"status": sim.task_status(0), "read_paused": sim.tr.read_paused, "undelivered": max(0, len(data) - i),
                 "reads": reads, "closed": bool(sim.ws.closed), "tr_closing": sim.tr.closing,
                 "idle": not sim.loop._ready and not sim.loop._scheduled}
+
+
+# ------------------------------------------------------------------------------------------------
+# read-side flow control (not part of the Lean model): a transport that really honours
+# pause_reading()/resume_reading() and a peer whose bytes wait in the "kernel buffer" meanwhile
+
+class FlowTransport(MemTransport):
+    """bytes fed by the peer are handed to data_received() one segment per loop callback, only while reading
+    is not paused; resume_reading() restarts the delivery from the next loop callback (as a selector transport does)"""
+    seg = 65536
+
+    def __init__(self, loop):
+        super().__init__(loop)
+        self.inbox = bytearray()
+        self.pumping = False
+        self.pauses = 0
+        self.resumes = 0
+        self.delivered = 0
+
+    def feed(self, data):
+        self.inbox += data
+        self._schedule()
+
+    def _schedule(self):
+        if not self.pumping and self.inbox and not self.read_paused and not self.closing:
+            self.pumping = True
+            self.loop.call_soon(self._pump)
+
+    def _pump(self):
+        self.pumping = False
+        if self.read_paused or self.closing or not self.inbox:
+            return
+        chunk = bytes(self.inbox[:self.seg])
+        del self.inbox[:self.seg]
+        self.delivered += len(chunk)
+        self.proto.data_received(chunk)
+        self._schedule()
+
+    def pause_reading(self):
+        if not self.read_paused:
+            self.pauses += 1
+        self.read_paused = True
+
+    def resume_reading(self):
+        if self.read_paused:
+            self.resumes += 1
+        self.read_paused = False
+        self._schedule()
+
+
+def flow_wire(frames, masked):
+    out = bytearray()
+    for f in frames:
+        if f[0] == "bin":
+            out += frame(2, b"b" * f[1], masked)
+        elif f[0] == "text":
+            out += frame(1, b"t" * f[1], masked)
+        elif f[0] == "ping":
+            out += frame(9, b"", masked)
+        elif f[0] == "close":
+            out += frame(8, struct.pack("!H", f[1]), masked)
+        else:
+            raise ValueError(f)
+    return bytes(out)
+
+
+def run_flow(plan, max_ticks=60000):
+    """plan: side, frames [(bin,n)|(text,n)|(ping,)|(close,code)], seg, eager (frames pipelined in the same bytes as the
+    handshake), pre_delay_ms (server handler waits that long before prepare()), read_bufsize (server, optional),
+    app_delay_ms (pause between two receive() calls), split_after/gap_ms (frames[split_after:] are sent gap_ms later).  An application task reads until a terminal message.
+    Returns the facts the oracle needs; everything is observed on the real objects."""
+    import aiohttp
+    from aiohttp import web, WSMsgType
+    side = plan["side"]
+    cfg = {"side": side, "autoclose": True, "autoping": True, "heartbeat": None, "recv_timeout": None,
+           "close_timeout": 10000, "limit": 65536 if side == "server" else 262144}
+    seg = plan["seg"]
+    k = plan.get("split_after")
+    wire = flow_wire(plan["frames"] if k is None else plan["frames"][:k], masked=side == "server")
+    wire2 = b"" if k is None else flow_wire(plan["frames"][k:], masked=side == "server")
+    tcls = type("FlowT", (FlowTransport,), {"seg": seg})
+    with Sim(cfg) as sim:
+        sim.transport_cls = tcls
+        loop = sim.loop
+
+        def run_until(pred):
+            for _ in range(max_ticks):
+                if pred():
+                    return True
+                sim._prune()
+                if not loop._ready and not loop._scheduled:
+                    return pred()
+                sim.tick()
+            return False
+
+        if side == "server":
+            holder = {}
+            forever = loop.create_future()
+            sim._keep.append(forever)
+
+            async def handler(request):
+                if plan.get("pre_delay_ms"):
+                    await asyncio.sleep(plan["pre_delay_ms"] / 1000)
+                ws = web.WebSocketResponse(timeout=10.0, compress=False)
+                await ws.prepare(request)
+                holder["ws"] = ws
+                await forever
+                return ws
+
+            kw = {"read_bufsize": plan["read_bufsize"]} if plan.get("read_bufsize") else {}
+            server = web.Server(handler, **kw)
+            sim._keep.append(server)
+            proto = server()
+            tr = tcls(loop)
+            tr.proto = proto
+            proto.connection_made(tr)
+            key = base64.b64encode(b"0123456789abcdef").decode()
+            req = ("GET /ws HTTP/1.1\r\nHost: h\r\nUpgrade: websocket\r\nConnection: Upgrade\r\n"
+                   f"Sec-WebSocket-Key: {key}\r\nSec-WebSocket-Version: 13\r\n\r\n").encode()
+            tr.feed(req + (wire if plan.get("eager") else b""))
+            if not run_until(lambda: "ws" in holder):
+                return {"setup_failed": True}
+            sim.ws, sim.tr, sim.proto = holder["ws"], tr, proto
+            if not plan.get("eager"):
+                tr.feed(wire)
+        else:
+            if plan.get("eager"):
+                sim.client_tail = wire
+            sim.setup()
+            if not plan.get("eager"):
+                sim.tr.feed(wire)
+        ws, tr, proto = sim.ws, sim.tr, sim.proto
+        got = []
+
+        async def app():
+            while True:
+                m = await ws.receive()
+                if m.type in (WSMsgType.BINARY, WSMsgType.TEXT):
+                    got.append(("bin" if m.type is WSMsgType.BINARY else "text", len(m.data)))
+                else:
+                    got.append((msg_token(m),))
+                    return
+                if plan.get("app_delay_ms"):
+                    await asyncio.sleep(plan["app_delay_ms"] / 1000)
+
+        if wire2:
+            # the rest of the peer's frames is sent later (a separate TCP segment): it waits in the transport while reading is paused
+            loop.call_later(plan.get("gap_ms", 125) / 1000, tr.feed, wire2)
+        task = loop.create_task(app())
+        idle = run_until(lambda: False) or True
+        sim._prune()
+        quiescent = not loop._ready and not loop._scheduled
+        err = None
+        if task.done() and not task.cancelled() and task.exception() is not None:
+            err = exc_kind(task.exception())
+        return {"got": got, "app_done": task.done(), "app_error": err, "quiescent": quiescent,
+                "inbox_left": len(tr.inbox), "read_paused": tr.read_paused, "pauses": tr.pauses, "resumes": tr.resumes,
+                "proto_reading_paused": bool(proto._reading_paused),
+                "msg_queue_paused": bool(getattr(proto, "_msg_queue_paused", False)),
+                "queue_size": ws._reader._size, "queue_len": len(ws._reader._buffer),
+                "closed": bool(ws.closed), "close_code": None if ws.close_code is None else int(ws.close_code),
+                "tr_closing": tr.closing, "now_ms": round(loop.time() * 1000),
+                "loop_excs": [str(c.get("message")) for c in sim.excs]}
